@@ -16,8 +16,8 @@ import (
 	"fmt"
 	"os"
 	"sort"
+	"strings"
 	"sync"
-	"time"
 
 	"verif/engine/choice"
 	"verif/engine/enum"
@@ -74,51 +74,172 @@ func check(c Case) (string, string) {
 	return v.class, v.what
 }
 
+type failure struct {
+	class, what string
+	c           Case
+}
+
 type tally struct {
 	evals, nontrivial int64
 	outcomes          map[string]int64
 	byBound           map[string]int64
+	fails             []failure
+	samples           []any
+	diverged          bool
 }
 
-func explore(r *report.R, st Case, t *tally, parallel bool) {
-	content := st.content()
-	ex := choice.Explore
-	var mu sync.Mutex
-	if parallel {
-		ex = choice.ExploreParallel
+func newTally() *tally { return &tally{outcomes: map[string]int64{}, byBound: map[string]int64{}} }
+
+func (t *tally) merge(o *tally) {
+	t.evals += o.evals
+	t.nontrivial += o.nontrivial
+	for k, v := range o.outcomes {
+		t.outcomes[k] += v
 	}
-	n := ex(st.Bound, r.OutOfTime, func(ch *choice.Chooser) {
-		v := run(st, content, ch)
-		if parallel {
-			mu.Lock()
-			defer mu.Unlock()
-		}
-		if v.nontrivial {
-			t.nontrivial++
-		}
-		if v.class != "" {
+	for k, v := range o.byBound {
+		t.byBound[k] += v
+	}
+	t.fails = append(t.fails, o.fails...)
+	if len(t.samples) < 200 {
+		t.samples = append(t.samples, o.samples...)
+	}
+}
+
+// explore runs every choice sequence of one static case within its deviation
+// bound and returns what it saw. Nothing is reported from here: a static case
+// whose exploration had to be redone is counted once.
+func explore(r *report.R, st Case, parallel bool) *tally {
+	content := st.content()
+	attempt := func(tolerant bool) (t *tally, divergence string) {
+		t = newTally()
+		var mu sync.Mutex
+		body := func(ch *choice.Chooser) {
+			v := run(st, content, ch)
+			if parallel {
+				mu.Lock()
+				defer mu.Unlock()
+			}
+			if v.nontrivial {
+				t.nontrivial++
+			}
 			c := st
 			c.Choices = ch.Choices()
-			r.Fail(v.class, v.what, c)
-			t.outcomes["FAIL "+v.class]++
+			if v.class != "" {
+				if len(t.fails) < 64 {
+					t.fails = append(t.fails, failure{v.class, v.what, c})
+				} else {
+					t.fails = append(t.fails, failure{class: v.class})
+				}
+				t.outcomes["FAIL "+v.class]++
+				return
+			}
+			t.outcomes[v.outcome]++
+			if len(t.samples) < 2 && (ch.Deviations() == 1 || st.Sweep == "dest") && (int64(len(st.Kind)+len(st.Hex)+len(st.Value))+r.Seed)%5 == 0 {
+				t.samples = append(t.samples, map[string]any{"case": c, "outcome": v.outcome})
+			}
+		}
+		var n int64
+		switch {
+		case tolerant:
+			n = exploreTolerant(st.Bound, r.OutOfTime, body)
+		case parallel:
+			n = choice.ExploreParallel(st.Bound, r.OutOfTime, body)
+		default:
+			func() {
+				defer func() {
+					if e := recover(); e != nil {
+						msg := fmt.Sprint(e)
+						if !strings.HasPrefix(msg, "choice:") {
+							panic(e)
+						}
+						divergence = msg
+					}
+				}()
+				n = choice.Explore(st.Bound, r.OutOfTime, body)
+			}()
+		}
+		t.evals = n
+		t.byBound[fmt.Sprintf("%s/%s/bound=%d", st.Sweep, st.Codec, st.Bound)] = n
+		return t, divergence
+	}
+	t, div := attempt(false)
+	if div != "" {
+		// The code under test did not perform the same stream operations when the same case was re-executed
+		// (state carried from one call to the next). The strict explorer refuses to go on; so that violations
+		// are still found, the case is explored again tolerating branches that cannot be replayed, and the
+		// run is reported as not exhaustive.
+		fmt.Fprintf(os.Stderr, "C15: %s: case %+v is re-explored in tolerant mode; the run is not exhaustive\n", div, st)
+		t, _ = attempt(true)
+		t.diverged = true
+	}
+	return t
+}
+
+// exploreTolerant is choice.Explore for code whose choice points are not a
+// function of the choices alone: a branch whose prefix cannot be replayed is
+// skipped instead of stopping the run.
+func exploreTolerant(bound int, stop func() bool, body func(c *choice.Chooser)) int64 {
+	var n int64
+	var rec func(prefix []int)
+	rec = func(prefix []int) {
+		if stop != nil && stop() {
 			return
 		}
-		t.outcomes[v.outcome]++
-		if r.WantSample() && (ch.Deviations() == 1 || st.Sweep == "dest") && (int64(len(st.Kind)+len(st.Hex)+len(st.Value))+r.Seed)%5 == 0 {
-			c := st
-			c.Choices = ch.Choices()
-			r.Sample(map[string]any{"case": c, "outcome": v.outcome})
+		c := choice.Replay(prefix)
+		ok := func() (ok bool) {
+			defer func() {
+				if e := recover(); e != nil {
+					if !strings.HasPrefix(fmt.Sprint(e), "choice:") {
+						panic(e)
+					}
+					ok = false
+				}
+			}()
+			body(c)
+			return true
+		}()
+		if !ok || len(c.Trace) < len(prefix) {
+			return
 		}
-	})
-	t.evals += n
-	t.byBound[fmt.Sprintf("%s/%s/bound=%d", st.Sweep, st.Codec, st.Bound)] += n
+		n++
+		dev := 0
+		for i := 0; i < len(prefix); i++ {
+			if c.Trace[i].Chosen != 0 {
+				dev++
+			}
+		}
+		for i := len(prefix); i < len(c.Trace); i++ {
+			if bound >= 0 && dev+1 > bound {
+				break
+			}
+			for alt := 1; alt < c.Trace[i].N; alt++ {
+				np := make([]int, i+1)
+				for k := 0; k < i; k++ {
+					np[k] = c.Trace[k].Chosen
+				}
+				np[i] = alt
+				rec(np)
+			}
+		}
+	}
+	rec(nil)
+	return n
+}
+
+// caseSize orders counterexamples: the smallest one of each class is reported first.
+func caseSize(c Case) int {
+	n := len(c.Hex)/2 + c.GenLen
+	if c.Value == "tree-big" {
+		n += 10000
+	}
+	return n*64 + len(c.Choices)
 }
 
 func hx(s string) string { return hex.EncodeToString([]byte(s)) }
 
 func buildCases(thorough bool) (cases []Case, sizes map[string]any) {
 	alpha := []string{"a", "\x00", "\xff", "\n"}
-	smallLen, zero, bound, rtBound := 3, 1, 1, 2
+	smallLen, zero, bound, rtBound := 3, 2, 1, 2
 	bigLens := []int{513, 4097, 70000}
 	if thorough {
 		smallLen, zero, bound, rtBound = 4, 2, 2, 3
@@ -126,13 +247,12 @@ func buildCases(thorough bool) (cases []Case, sizes map[string]any) {
 	}
 	small := enum.Strings(alpha, smallLen) // every content up to smallLen: all choice sequences
 	reduced := []string{"", "a", "\xff\n"} // for kinds whose dispatch does not look at the bytes
-	medium := []string{"a\x00\xff\n", " a \n", "\n\n\n\n\n"}
-	if thorough {
-		medium = append(medium, enum.Strings([]string{"a", "\n"}, 4)[15:]...) // all 16 contents of length 4 over {a, \n}
-	}
+	// short contents that are longer than the exhaustive ones: explored with one deviation more than the long ones
+	medium := []string{"a\x00\xff\n\n", " a \n", "\n\n\n\n\n\n", "\xff\xfe\x00\x80abc\n", "0123456789abcdef"}
+	mBound := bound + 1
 	sizes = map[string]any{
 		"content_alphabet": []string{"a", "\\x00", "\\xff", "\\n"}, "content_all_strings_up_to": smallLen, "contents_exhaustive_chunking": len(small),
-		"contents_bounded": len(medium) + len(bigLens), "generated_lengths": bigLens, "deviation_bound_long_contents": bound, "deviation_bound_structured_roundtrip": rtBound, "zero_length_reads_offered": zero,
+		"generated_lengths": bigLens, "deviation_bound_long_contents": bound, "deviation_bound_medium_contents": mBound, "medium_contents": len(medium), "deviation_bound_structured_roundtrip": rtBound, "zero_length_reads_offered": zero,
 		"bytestream_destination_kinds": len(bsConsumeKinds), "text_destination_kinds": len(textConsumeKinds),
 		"bytestream_source_kinds": len(bsProduceKinds), "text_source_kinds": len(textProduceKinds),
 		"structured_bad_destinations": len(badDests), "roundtrip_values": len(family),
@@ -163,7 +283,7 @@ func buildCases(thorough bool) (cases []Case, sizes map[string]any) {
 					}
 					if supported {
 						for _, s := range medium {
-							add(Case{Sweep: "consume", Codec: codec, Kind: k.name, Stream: stream, Close: cl, Hex: hx(s), Zero: 1, Bound: bound})
+							add(Case{Sweep: "consume", Codec: codec, Kind: k.name, Stream: stream, Close: cl, Hex: hx(s), Zero: 1, Bound: mBound})
 						}
 					}
 					if supported || k.name == "*int" || k.name == "nil" {
@@ -199,7 +319,7 @@ func buildCases(thorough bool) (cases []Case, sizes map[string]any) {
 						continue
 					}
 					for _, s := range medium {
-						add(Case{Sweep: "produce", Codec: codec, Kind: k.name, Stream: stream, Close: cl, Hex: hx(s), Zero: 1, Bound: bound})
+						add(Case{Sweep: "produce", Codec: codec, Kind: k.name, Stream: stream, Close: cl, Hex: hx(s), Zero: 1, Bound: mBound})
 					}
 					for _, n := range bigLens {
 						add(Case{Sweep: "produce", Codec: codec, Kind: k.name, Stream: stream, Close: cl, GenLen: n, Zero: 1, Bound: bound})
@@ -213,7 +333,7 @@ func buildCases(thorough bool) (cases []Case, sizes map[string]any) {
 	for _, codec := range []string{"bytestream", "text"} {
 		for _, pair := range exactPairs[codec] {
 			for _, s := range append(append([]string{}, reduced...), medium[:3]...) {
-				add(Case{Sweep: "roundtrip", Codec: codec, Kind: pair, Hex: hx(s), Zero: 1, Bound: bound})
+				add(Case{Sweep: "roundtrip", Codec: codec, Kind: pair, Hex: hx(s), Zero: 1, Bound: mBound})
 			}
 			add(Case{Sweep: "roundtrip", Codec: codec, Kind: pair, GenLen: 4097, Zero: 1, Bound: bound})
 		}
@@ -280,7 +400,8 @@ func main() {
 		rot = int(((r.Seed % n) + n) % n)
 	}
 	var mu sync.Mutex
-	total := tally{outcomes: map[string]int64{}, byBound: map[string]int64{}}
+	total := newTally()
+	divergedCases := 0
 	// the few documents that take milliseconds per execution are explored with the choice tree itself spread over the cores
 	var light []Case
 	for _, st := range cases {
@@ -288,37 +409,37 @@ func main() {
 			light = append(light, st)
 			continue
 		}
-		t := tally{outcomes: map[string]int64{}, byBound: map[string]int64{}}
-		explore(r, st, &t, true)
-		r.Eval(t.evals)
-		r.Nontrivial(t.nontrivial)
-		for k, v := range t.outcomes {
-			total.outcomes[k] += v
-		}
-		for k, v := range t.byBound {
-			total.byBound[k] += v
-		}
+		total.merge(explore(r, st, true))
 	}
 	cases = light
 	enum.Parallel(len(cases), r.OutOfTime, func(i int) {
 		st := cases[(i+rot)%len(cases)]
-		t := tally{outcomes: map[string]int64{}, byBound: map[string]int64{}}
-		t0 := time.Now()
-		explore(r, st, &t, false)
-		if os.Getenv("C15_TIMING") != "" {
-			fmt.Fprintf(os.Stderr, "T %8.3f %d %s %s %s %s gen=%d hex=%s v=%s\n", time.Since(t0).Seconds(), t.evals, st.Sweep, st.Codec, st.Kind, st.Stream, st.GenLen, st.Hex, st.Value)
-		}
-		r.Eval(t.evals)
-		r.Nontrivial(t.nontrivial)
+		t := explore(r, st, false)
 		mu.Lock()
-		for k, v := range t.outcomes {
-			total.outcomes[k] += v
-		}
-		for k, v := range t.byBound {
-			total.byBound[k] += v
+		total.merge(t)
+		if t.diverged {
+			divergedCases++
 		}
 		mu.Unlock()
 	})
+	r.Eval(total.evals)
+	r.Nontrivial(total.nontrivial)
+	// smallest counterexample of every class first (the report keeps the first five of a class)
+	sort.SliceStable(total.fails, func(i, j int) bool {
+		a, b := total.fails[i], total.fails[j]
+		if (a.what == "") != (b.what == "") {
+			return b.what == ""
+		}
+		return caseSize(a.c) < caseSize(b.c)
+	})
+	for _, f := range total.fails {
+		r.Fail(f.class, f.what, f.c)
+	}
+	sort.SliceStable(total.samples, func(i, j int) bool { return i%7 < j%7 })
+	for _, sm := range total.samples {
+		r.Sample(sm)
+	}
+	r.Set("static_cases_with_unreplayable_branches", divergedCases)
 	for k, v := range total.outcomes {
 		r.Outcome(k, v)
 	}
@@ -329,5 +450,5 @@ func main() {
 		"round-trip values are restricted to what each format can represent (no control characters in XML, no empty non-nil slices in XML, dynamically typed JSON numbers are json.Number)",
 		"not judged because the statement does not force it: nil reader, unsupported or nil SOURCE of a producer, error on empty text input for an unsupported destination, the value left in a pre-populated destination of JSON/XML/YAML, error identity",
 	)
-	r.Finish("one evaluation = one execution of a real producer and/or consumer on scripted streams for one (static case, choice sequence); the explorer never repeats a choice sequence and the static cases are distinct tuples, so evaluations are distinct cases; non-trivial = the codec performed at least one Read or Write on a scripted stream (or panicked)", true)
+	r.Finish("one evaluation = one execution of a real producer and/or consumer on scripted streams for one (static case, choice sequence); the explorer never repeats a choice sequence and the static cases are distinct tuples, so evaluations are distinct cases; non-trivial = the codec performed at least one Read or Write on a scripted stream (or panicked)", divergedCases == 0)
 }
